@@ -142,6 +142,9 @@ type Node struct {
 	OnConn func(sc *ServerConn)
 	// StartupHook lets a test override the answer to STARTUP (return true if handled).
 	StartupHook func(sc *ServerConn, f *Frame) bool
+	// FrameHook, if set, sees every frame before the default handling (on the connection's reader
+	// goroutine); returning true means the hook took the frame over (it replies itself, later, or never).
+	FrameHook func(sc *ServerConn, f *Frame) bool
 
 	mu     sync.Mutex
 	nconn  int
@@ -223,6 +226,9 @@ func (n *Node) serve(sc *ServerConn) {
 		f, err := ReadFrame(sc.c, n.Proto)
 		if err != nil {
 			return
+		}
+		if n.FrameHook != nil && n.FrameHook(sc, f) {
+			continue
 		}
 		switch f.Op {
 		case OpOptions:
